@@ -257,11 +257,21 @@ def run(ctx):
     with _tr.Tree([('abc', 'd', None), ('abc/x', 'f', None), ('ABC', 'd', None), ('ABC/y', 'f', None), ('Abc', 'd', None), ('Abc/z', 'f', None),
                    ('notes', 'd', None), ('notes/N1', 'f', None), ('other', 'f', None)]) as TC:
         for pat_ in ('abc/*', 'ABC/*', 'aBC/*', 'Abc/*', 'abc/X', 'ABC/x', '*/x', 'NOTES/n1', 'notes/*'):
-            for fl_, ci_ in ((Gm.IGNORECASE, True), (0, False), (Gm.CASE | Gm.IGNORECASE, False)):
+            # (the walk of a real tree follows the host's rules: FORCEWIN / FORCEUNIX given by the caller - alone or both, which
+            #  cancels them - change nothing; the REALPATH matcher agrees entry by entry)
+            for fl_, ci_ in ((Gm.IGNORECASE, True), (0, False), (Gm.CASE | Gm.IGNORECASE, False), (Gm.FORCEWIN | Gm.FORCEUNIX, False), (Gm.FORCEWIN, False),
+                             (Gm.FORCEUNIX, False), (Gm.FORCEWIN | Gm.FORCEUNIX | Gm.IGNORECASE, True), (Gm.FORCEWIN | Gm.CASE, False)):
                 evals += 1
                 got = sorted(Gm.glob(pat_, flags=fl_, root_dir=TC.root))
                 ents = ['abc/x', 'ABC/y', 'Abc/z', 'notes/N1']
-                want = sorted(e for e in ents if Gm.globmatch(e, pat_, flags=fl_ | Gm.FORCEUNIX))
+                host_fl = fl_ & ~(Gm.FORCEWIN | Gm.FORCEUNIX)
+                want = sorted(e for e in ents if Gm.globmatch(e, pat_, flags=host_fl | Gm.FORCEUNIX))
+                real_ = sorted(e for e in ents if Gm.globmatch(e, pat_, flags=fl_ | Gm.REALPATH, root_dir=TC.root))
+                # the same text with a one-letter bracket: a magic first segment
+                brk_ = sorted(Gm.glob('[%s]%s' % (pat_[0], pat_[1:]), flags=fl_, root_dir=TC.root)) if pat_[0].isalpha() else want
+                if real_ != want or brk_ != want:
+                    ctx.counterexample('tree with abc/, ABC/, Abc/: pattern %r under %s - REALPATH matcher accepts %r, the walk of the bracket spelling returns %r, host-rule matching gives %r' % (
+                        pat_, corr.flag_names(fl_), real_, brk_, want), {'pattern': pat_, 'flags': corr.flag_names(fl_), 'realpath': real_, 'bracket_spelling': brk_, 'want': want})
                 if got != want or sorted(Gm.iglob(pat_, flags=fl_, root_dir=TC.root)) != want or \
                         sorted(str(x.relative_to(TC.root)) for x in __import__('wcmatch.pathlib', fromlist=['Path']).Path(TC.root).glob(pat_, flags=fl_)) != want:
                     ctx.counterexample('glob(%r, %s) on a tree with abc/, ABC/, Abc/ returns %r; matching entry by entry gives %r' % (pat_, corr.flag_names(fl_), got, want),
